@@ -11,7 +11,14 @@ no longer in the recognisable syntactic form — a refactor must not raise an al
 type the model has no codec for (say u32, or as_array::<64>) is emitted as `FOther "<rust type>"`, which no proof of
 coq/CodecTie.v can accept. CodecTie.v proves that the encoders/sizes of coq/Codec.v are the generic interpretation of these
 descriptions: a reordered, added, dropped or retyped field breaks a proof obligation even when no generated message happens
-to show it."""
+to show it.
+
+The same is done for the oplog codecs (property C06): `EntryTreeUpgrade`, `HeaderTree`, `HeaderHints` (pure macro form,
+src/oplog/entry.rs, src/oplog/header.rs) as `codec_desc`; the imperative but regular `impl CompactEncoding for Entry` as a
+`flagged_desc` (for encoded_size / encode / decode separately: the sections in order, each with the flag bit that announces
+it — `flags |= N` in encode, `flags & N != 0` in decode); `BitfieldUpdate` (leading flag byte + two fields) and `Header`
+(leading bytes `[1, 2 | 4]`, 32-byte key, then map_encode!/map_decode!) as a `codec_desc` plus a description of the leading
+bytes. coq/OplogTie.v ties them to coq/Oplog.v."""
 import os, re
 
 REPO_SRC = "/repo/src"
@@ -144,11 +151,16 @@ def struct_fields(src_root, ty, f):
     return out
 
 
-RUST_TY = {"u64": "FU64", "Vec<u8>": "FBytes", "Vec<Node>": "FNodes", "[u8;32]": "FHash32"}
+RUST_TY = {"u64": "FU64", "Vec<u8>": "FBytes", "Box<[u8]>": "FBytes", "Vec<Node>": "FNodes", "[u8;32]": "FHash32",
+           "Vec<String>": "FStrings"}
+# struct types with a CompactEncoding impl of their own that the model has a codec for (nested records)
+RUST_REC = ["Manifest", "PartialKeypair", "HeaderTree", "HeaderHints", "EntryTreeUpgrade", "BitfieldUpdate"]
 
 
 def fty(rust):
     r = squeeze(rust)
+    if r in RUST_REC:
+        return ("FRec", r)
     return RUST_TY.get(r, ("FOther", r))
 
 
@@ -157,45 +169,52 @@ def self_field(expr):
     return m.group(1) if m else None
 
 
-def parse_size(body, fields, fixed):
-    """-> [(field, fty)]; fixed: {array length: field} of the fields `encode` writes as fixed arrays"""
+def parse_size(body, fields, fixed, lead=None):
+    """-> [(field, fty)]; fixed: {array length: field} of the fields `encode` writes as fixed arrays. A constant summand
+    stands for the field that `encode` writes as a fixed array of that length; constants that stand for no field are
+    an alarm (FOther) unless lead is a list, to which they are appended (bytes written before the fields)"""
     st = statements(body)
     if len(st) != 1:
         raise Unrecognised("encoded_size: one expression expected")
     e = st[0]
     m = re.fullmatch(r"self\s*\.\s*(%s)\s*\.\s*encoded_size\s*\(\s*\)" % IDENT, e)
     if m:
-        names, extra = [m.group(1)], []
+        parts = [("names", [m.group(1)])]
     else:
         e = ok_arg(e)
-        parts = split_top(e, "+")
-        names = []
-        for a in macro_args(parts[0], "sum_encoded_size"):
-            n = self_field(a)
-            if n is None:
-                raise Unrecognised("sum_encoded_size! argument " + a)
-            names.append(n)
-        extra = parts[1:]
+        parts = []
+        for part in split_top(e, "+"):
+            if re.fullmatch(r"\d+", part):
+                parts.append(("const", int(part)))
+            else:
+                names = []
+                for a in macro_args(part, "sum_encoded_size"):
+                    n = self_field(a)
+                    if n is None:
+                        raise Unrecognised("sum_encoded_size! argument " + a)
+                    names.append(n)
+                parts.append(("names", names))
+        if [k for (k, _) in parts].count("names") != 1:
+            raise Unrecognised("encoded_size: one sum_encoded_size! expected")
     out = []
-    for n in names:
-        if n not in fields:
-            raise Unrecognised("no field " + n)
-        out.append((n, fty(fields[n])))
-    for k in extra:
-        if not re.fullmatch(r"\d+", k):
-            raise Unrecognised("encoded_size: + " + k)
-        k = int(k)
-        # a constant stands for the field that `encode` writes as a fixed array of that length
-        if k in fixed and fixed[k]:
-            out.append((fixed[k].pop(0), fty("[u8;%d]" % k)))
+    for (kind, v) in parts:
+        if kind == "names":
+            for n in v:
+                if n not in fields:
+                    raise Unrecognised("no field " + n)
+                out.append((n, fty(fields[n])))
+        elif v in fixed and fixed[v]:
+            out.append((fixed[v].pop(0), fty("[u8;%d]" % v)))
+        elif lead is not None:
+            lead.append(v)
         else:
-            out.append(("", ("FOther", "+ %d" % k)))
+            out.append(("", ("FOther", "+ %d" % v)))
     return out
 
 
-def parse_encode(body, fields):
+def parse_encode(body, fields, st=None, buf="buffer"):
     """-> ([(field, fty)], {array length: [fields written as a fixed array of that length]})"""
-    st = statements(body)
+    st = statements(body) if st is None else st
     if not st:
         raise Unrecognised("encode: empty")
     m = re.fullmatch(r"self\s*\.\s*(%s)\s*\.\s*encode\s*\(\s*buffer\s*\)" % IDENT, st[-1])
@@ -211,7 +230,7 @@ def parse_encode(body, fields):
             raise Unrecognised("encode: statement " + s)
         local[m.group(1)] = (m.group(3), int(m.group(2)))
     args = macro_args(ok_arg(st[-1]), "map_encode")
-    if not args or args[0] != "buffer":
+    if not args or args[0] != buf:
         raise Unrecognised("map_encode!(buffer, ..)")
     out, fixed = [], {}
     for a in args[1:]:
@@ -220,6 +239,9 @@ def parse_encode(body, fields):
             if n not in fields:
                 raise Unrecognised("no field " + n)
             out.append((n, fty(fields[n])))
+            am = re.fullmatch(r"\[u8;(\d+)\]", squeeze(fields[n]))
+            if am:
+                fixed.setdefault(int(am.group(1)), []).append(n)
         elif a in local:
             n, k = local[a]
             if n not in fields:
@@ -266,9 +288,11 @@ def ctor_params(src_root, ty, f, fn):
     raise Unrecognised("no fn %s::%s" % (ty, fn))
 
 
-def parse_decode(body, ty, fields, src_root, f):
-    """-> ([fty read, in order], [field each value read is assigned to, in order])"""
-    st = statements(body)
+def parse_decode(body, ty, fields, src_root, f, st=None, buf="buffer", pre=(), extra=None):
+    """-> ([fty read, in order], [field each value read is assigned to, in order]).
+    pre: (variable, rust type) pairs read before the map_decode! (Header's key); extra: {field: expression} that the
+    struct literal may contain besides the values read (BitfieldUpdate's drop) — filled in by this function"""
+    st = statements(body) if st is None else st
     if len(st) != 2:
         raise Unrecognised("decode: two statements expected")
     m = re.fullmatch(r"let \( ?(.*) ?, ?(%s) ?,? ?\) = (.*)" % IDENT, st[0])
@@ -280,16 +304,18 @@ def parse_decode(body, ty, fields, src_root, f):
             raise Unrecognised("decode: pattern")
         vars_ = split_top(pat[1:-1])
         args = macro_args(rhs, "map_decode")
-        if len(args) != 2 or args[0] != "buffer" or not args[1].startswith("[") \
+        if len(args) != 2 or args[0] != buf or not args[1].startswith("[") \
                 or match_close(args[1], 0) != len(args[1]) - 1:
             raise Unrecognised("map_decode!(buffer, [..])")
         tys = split_top(args[1][1:-1])
     else:
         vars_ = [pat]
-        dm = re.fullmatch(r"(.+?)\s*::\s*decode\s*\(\s*buffer\s*\)\s*\?", rhs)
+        dm = re.fullmatch(r"(.+?)\s*::\s*decode\s*\(\s*%s\s*\)\s*\?" % buf, rhs)
         if not dm:
             raise Unrecognised("decode: T::decode(buffer)?")
         tys = [dm.group(1)]
+    vars_ = [v for (v, _) in pre] + vars_
+    tys = [t for (_, t) in pre] + tys
     if len(vars_) != len(tys) or len(set(vars_)) != len(vars_) or not all(re.fullmatch(IDENT, v) for v in vars_):
         raise Unrecognised("decode: pattern and type list differ")
     res = split_top(ok_arg(st[1]))
@@ -303,12 +329,17 @@ def parse_decode(body, ty, fields, src_root, f):
         raise Unrecognised("decode: Ok((.., rest))")
     ctor = parts[0]
     assigned = {}   # variable -> field
-    lm = re.fullmatch(r"%s\s*\{(.*)\}" % ty, ctor, flags=re.S)
+    lm = re.fullmatch(r"(?:%s|Self)\s*\{(.*)\}" % ty, ctor, flags=re.S)
     cm = re.fullmatch(r"%s\s*::\s*(%s)\s*\((.*)\)" % (ty, IDENT), ctor, flags=re.S)
     if lm:
         seen = []
         for item in split_top(lm.group(1)):
             im = re.fullmatch(r"(%s)(?:\s*:\s*(%s))?" % (IDENT, IDENT), item)
+            xm = re.fullmatch(r"(%s)\s*:\s*(.+)" % IDENT, item, flags=re.S)
+            if not im and extra is not None and xm and xm.group(1) not in extra and xm.group(1) not in seen:
+                extra[xm.group(1)] = norm(xm.group(2))
+                seen.append(xm.group(1))
+                continue
             if not im:
                 raise Unrecognised("struct literal item " + item)
             fld, var = im.group(1), im.group(2) or im.group(1)
@@ -337,13 +368,302 @@ def parse_decode(body, ty, fields, src_root, f):
     return [fty(t) for t in tys], [assigned[v] for v in vars_]
 
 
-def extract_one(src_root, ty, f):
+def impl_block(src_root, ty, impl_file):
+    return block_after(read(os.path.join(src_root, impl_file)), r"\bimpl\s+CompactEncoding\s+for\s+%s\s*\{" % ty)
+
+
+def extract_one(src_root, ty, f, impl_file=ENCODING):
     fields = dict(struct_fields(src_root, ty, f))
-    block = block_after(read(os.path.join(src_root, ENCODING)), r"\bimpl\s+CompactEncoding\s+for\s+%s\s*\{" % ty)
+    block = impl_block(src_root, ty, impl_file)
     enc, fixed = parse_encode(fn_body(block, "encode"), fields)
     size = parse_size(fn_body(block, "encoded_size"), fields, fixed)
     dec_types, ctor = parse_decode(fn_body(block, "decode"), ty, fields, src_root, f)
     return dict(size=size, enc=enc, dec_types=dec_types, ctor=ctor)
+
+
+# ----------------------------------------------------------------------------------------------
+# oplog codecs (C06)
+# ----------------------------------------------------------------------------------------------
+
+# pure macro form: (Rust type, file with the impl, file with the struct)
+OPLOG_TYPES = [
+    ("EntryTreeUpgrade", "oplog/entry.rs", "oplog/entry.rs"),
+    ("HeaderTree", "oplog/header.rs", "oplog/header.rs"),
+    ("HeaderHints", "oplog/header.rs", "oplog/header.rs"),
+]
+ENTRY_RS = "oplog/entry.rs"
+HEADER_RS = "oplog/header.rs"
+BITFIELD_UPDATE_RS = "common/mod.rs"
+
+
+def top_statements(body):
+    """the statements of a block: `if .. { } [else ..{ }]` needs no `;`, everything else ends at a `;` outside brackets"""
+    out, i, n = [], 0, len(body)
+    while True:
+        while i < n and (body[i].isspace() or body[i] == ";"):
+            i += 1
+        if i >= n:
+            return out
+        if re.match(r"if\b", body[i:]):
+            j = i
+            while True:
+                k = body.find("{", j)
+                if k < 0:
+                    raise Unrecognised("if without block")
+                c = match_close(body, k)
+                m = re.match(r"\s*else\b", body[c + 1:])
+                if not m:
+                    break
+                j = c + 1 + m.end()
+            out.append(squeeze(body[i:c + 1]))
+            i = c + 1
+        else:
+            depth, j = 0, i
+            while j < n and not (body[j] == ";" and depth == 0):
+                depth += body[j] in "([{"
+                depth -= body[j] in ")]}"
+                j += 1
+            out.append(squeeze(body[i:j]))
+            i = j + 1
+
+
+def int_expr(e):
+    """integer literal expression (|, <<, +, parentheses, 0x.., u8 suffix) -> int"""
+    e = re.sub(r"(?<=[0-9a-fA-F])_?(u8|u16|u32|u64|usize)\b", "", e)
+    if not re.fullmatch(r"[0-9a-fA-FxX|<+()\s]+", e):
+        raise Unrecognised("integer expression " + e)
+    try:
+        v = eval(e, {"__builtins__": {}}, {})
+    except Exception:
+        raise Unrecognised("integer expression " + e)
+    if not isinstance(v, int) or v < 0:
+        raise Unrecognised("integer expression " + e)
+    return v
+
+
+def find_struct_file(src_root, ty, candidates):
+    for f in candidates:
+        try:
+            if re.search(r"\bstruct\s+%s\s*\{" % ty, read(os.path.join(src_root, f))):
+                return f
+        except Unrecognised:
+            pass
+    raise Unrecognised("no struct " + ty)
+
+
+def section_fty(rust):
+    """type of an Entry section: Vec<..> is written when non-empty, Option<T> when Some"""
+    r = squeeze(rust)
+    m = re.fullmatch(r"Option<(.+)>", r)
+    if m:
+        return "opt", fty(m.group(1))
+    if r.startswith("Vec<"):
+        return "vec", fty(r)
+    return "other", ("FOther", r)
+
+
+def extract_entry(src_root):
+    """impl CompactEncoding for Entry -> dict(size_lead, size=[(field, fty)], enc=[(field, bit, fty)], dec=[...])"""
+    fields = dict(struct_fields(src_root, "Entry", ENTRY_RS))
+    block = impl_block(src_root, "Entry", ENTRY_RS)
+
+    def guard(st):
+        """`if <guard of field F> {BODY}` -> (F, name under which BODY refers to the section, BODY statements)"""
+        m = re.fullmatch(r"if!self\.(%s)\.is_empty\(\)\{(.*)\}" % IDENT, st)
+        if m:
+            fld, ref, kind = m.group(1), "self." + m.group(1), "vec"
+        else:
+            m = re.fullmatch(r"ifletSome\((%s)\)=&self\.(%s)\{(.*)\}" % (IDENT, IDENT), st)
+            if not m:
+                raise Unrecognised("Entry: statement " + st)
+            fld, ref, kind = m.group(2), m.group(1), "opt"
+        if fld not in fields:
+            raise Unrecognised("no field " + fld)
+        k, t = section_fty(fields[fld])
+        if k != kind:
+            raise Unrecognised("Entry: guard of %s does not fit its type" % fld)
+        return fld, t, re.escape(ref), [x for x in m.group(m.lastindex).split(";") if x]
+
+    # encoded_size
+    st = top_statements(fn_body(block, "encoded_size"))
+    m = re.fullmatch(r"letmut(%s)=(\d+)" % IDENT, st[0]) if len(st) >= 2 else None
+    if not m or st[-1] != "Ok(%s)" % m.group(1):
+        raise Unrecognised("Entry::encoded_size")
+    out, size_lead, size = m.group(1), int(m.group(2)), []
+    for x in st[1:-1]:
+        fld, t, ref, body = guard(x)
+        if len(body) != 1 or not re.fullmatch(r"%s\+=%s\.encoded_size\(\)\?" % (out, ref), body[0]):
+            raise Unrecognised("Entry::encoded_size: " + x)
+        size.append((fld, t))
+
+    # encode
+    st = top_statements(fn_body(block, "encode"))
+    if len(st) < 4:
+        raise Unrecognised("Entry::encode")
+    m0 = re.fullmatch(r"let\((%s),mut(%s)\)=take_array_mut::<1>\(buffer\)\?" % (IDENT, IDENT), st[0])
+    m1 = re.fullmatch(r"letmut(%s)=0(?:u8)?" % IDENT, st[1])
+    if not m0 or not m1:
+        raise Unrecognised("Entry::encode: prologue")
+    fb, rest, fl = m0.group(1), m0.group(2), m1.group(1)
+    if st[-2] != "%s[0]=%s" % (fb, fl) or st[-1] != "Ok(%s)" % rest:
+        raise Unrecognised("Entry::encode: epilogue")
+    enc = []
+    for x in st[2:-2]:
+        fld, t, ref, body = guard(x)
+        bm = re.fullmatch(r"%s\|=(.+)" % fl, body[0]) if len(body) == 2 else None
+        if not bm or not re.fullmatch(r"%s=%s\.encode\(%s\)\?" % (rest, ref, rest), body[1]):
+            raise Unrecognised("Entry::encode: " + x)
+        enc.append((fld, int_expr(bm.group(1)), t))
+
+    # decode
+    st = top_statements(fn_body(block, "decode"))
+    m0 = re.fullmatch(r"let\(\[(%s)\],(%s)\)=take_array::<1>\(buffer\)\?" % (IDENT, IDENT), st[0]) if len(st) >= 2 else None
+    if not m0:
+        raise Unrecognised("Entry::decode: prologue")
+    fl, rest = m0.group(1), m0.group(2)
+    dec_vars = []
+    for x in st[1:-1]:
+        m = re.fullmatch(r"let\((%s),%s\)=if%s&(\w+)!=0\{(.*)\}else\{\(Default::default\(\),%s\)\}"
+                         % (IDENT, rest, fl, rest), x)
+        if not m:
+            raise Unrecognised("Entry::decode: " + x)
+        var, bit, body = m.group(1), int_expr(m.group(2)), m.group(3)
+        bm = re.fullmatch(r"let\((%s),%s\)=(.+)::decode\(%s\)\?;\(Some\(\1\),%s\)" % (IDENT, rest, rest, rest), body)
+        if bm:
+            t = fty(bm.group(2))
+        else:
+            bm = re.fullmatch(r"<(.+)>::decode\(%s\)\?" % rest, body) or re.fullmatch(r"(%s)::decode\(%s\)\?" % (IDENT, rest), body)
+            if not bm:
+                raise Unrecognised("Entry::decode: " + body)
+            t = fty(bm.group(1))
+            if t[0] == "FRec":
+                t = ("FOther", "%s (not optional)" % bm.group(1))
+        dec_vars.append((var, bit, t))
+    # result: Ok((Self { .. }, rest))
+    res = ok_arg(st[-1])
+    rm = re.fullmatch(r"\((?:Entry|Self)\{(.*)\},%s,?\)" % rest, res)
+    if not rm:
+        raise Unrecognised("Entry::decode: result")
+    assigned, seen = {}, []
+    for item in split_top(rm.group(1)):
+        im = re.fullmatch(r"(%s)(?::(%s))?" % (IDENT, IDENT), item)
+        if not im:
+            raise Unrecognised("Entry::decode: item " + item)
+        fld, var = im.group(1), im.group(2) or im.group(1)
+        if var in assigned or fld in seen:
+            raise Unrecognised("struct literal: twice")
+        assigned[var] = fld
+        seen.append(fld)
+    if sorted(seen) != sorted(fields) or sorted(assigned) != sorted(v for (v, _, _) in dec_vars):
+        raise Unrecognised("Entry::decode: values read and fields differ")
+    dec = [(assigned[v], bit, t) for (v, bit, t) in dec_vars]
+    return dict(size_lead=size_lead, size=size, enc=enc, dec=dec)
+
+
+def bit_test(expr, var):
+    """`var & M == M` or `var & M != 0` -> M"""
+    e = squeeze(expr)
+    m = re.fullmatch(r"%s&(\w+)==(\w+)" % var, e)
+    if m and int_expr(m.group(1)) == int_expr(m.group(2)):
+        return int_expr(m.group(1))
+    m = re.fullmatch(r"%s&(\w+)!=0" % var, e)
+    if m:
+        return int_expr(m.group(1))
+    raise Unrecognised("bit test " + expr)
+
+
+def extract_bitfield_update(src_root):
+    """-> (codec_desc of the fields after the flag byte, dict(size=K, enc=[(field, value when true)], dec=[(field, mask)]))"""
+    sf = find_struct_file(src_root, "BitfieldUpdate", ["common/mod.rs", "common/peer.rs", "bitfield/dynamic.rs", "oplog/entry.rs"])
+    fields = dict(struct_fields(src_root, "BitfieldUpdate", sf))
+    block = impl_block(src_root, "BitfieldUpdate", ENTRY_RS)
+    # encode: let D = if self.F { A } else { 0 }; let R = write_array(&[D], buffer)?; Ok(map_encode!(R, ..))
+    st = top_statements(fn_body(block, "encode"))
+    if len(st) != 3:
+        raise Unrecognised("BitfieldUpdate::encode")
+    m0 = re.fullmatch(r"let(%s)=ifself\.(%s)\{(\w+)\}else\{0\}" % (IDENT, IDENT), st[0])
+    m1 = re.fullmatch(r"let(%s)=write_array\(&\[(%s)\],buffer\)\?" % (IDENT, IDENT), st[1])
+    if not m0 or not m1 or m1.group(2) != m0.group(1) or squeeze(fields.get(m0.group(2), "")) != "bool":
+        raise Unrecognised("BitfieldUpdate::encode: flag byte")
+    flag_field, flag_val, rest = m0.group(2), int_expr(m0.group(3)), m1.group(1)
+    plain = {k: v for (k, v) in fields.items() if k != flag_field}
+    enc, fixed = parse_encode(None, plain, st=[norm(fn_last_statement(fn_body(block, "encode")))], buf=rest)
+    lead = []
+    size = parse_size(fn_body(block, "encoded_size"), plain, fixed, lead=lead)
+    # decode: let ([FL], R) = take_array::<1>(buffer)?; let ((..), R2) = map_decode!(R, [..]); Ok((T { F: FL & 1 == 1, .. }, R2))
+    sts = statements(fn_body(block, "decode"))
+    m2 = re.fullmatch(r"let\(\[(%s)\],(%s)\)=take_array::<1>\(buffer\)\?" % (IDENT, IDENT), squeeze(sts[0])) if len(sts) == 3 else None
+    if not m2:
+        raise Unrecognised("BitfieldUpdate::decode")
+    extra = {}
+    dec_types, ctor = parse_decode(None, "BitfieldUpdate", fields, src_root, sf, st=sts[1:], buf=m2.group(2), extra=extra)
+    if list(extra) != [flag_field]:
+        raise Unrecognised("BitfieldUpdate::decode: flag field")
+    mask = bit_test(extra[flag_field], m2.group(1))
+    return (dict(size=size, enc=enc, dec_types=dec_types, ctor=ctor),
+            dict(size=sum(lead), enc=[(flag_field, flag_val)], dec=[(flag_field, mask)]))
+
+
+def fn_last_statement(body):
+    parts = split_top(body, ";")
+    if not parts:
+        raise Unrecognised("empty body")
+    return parts[-1]
+
+
+def extract_header(src_root):
+    """-> (codec_desc of key + the map_encode! fields, dict(bytes=[..], dec_skip=n, size=n))"""
+    fields = dict(struct_fields(src_root, "Header", HEADER_RS))
+    block = impl_block(src_root, "Header", HEADER_RS)
+    st = statements(fn_body(block, "encode"))
+    m = re.fullmatch(r"let(%s)=write_array\(&\[(.*)\],buffer\)\?" % IDENT, squeeze(st[0])) if len(st) == 2 else None
+    if not m:
+        raise Unrecognised("Header::encode")
+    lead_bytes = [int_expr(x) for x in split_top(m.group(2))]
+    enc, fixed = parse_encode(None, fields, st=st[1:], buf=m.group(1))
+    lead = []
+    size = parse_size(fn_body(block, "encoded_size"), fields, fixed, lead=lead)
+    st = statements(fn_body(block, "decode"))
+    if len(st) != 4:
+        raise Unrecognised("Header::decode")
+    m0 = re.fullmatch(r"let\(\[(.*)\],(%s)\)=take_array::<(\d+)>\(buffer\)\?" % IDENT, squeeze(st[0]))
+    if not m0 or len(split_top(m0.group(1))) != int(m0.group(3)):
+        raise Unrecognised("Header::decode: leading bytes")
+    # the leading bytes are read and ignored
+    later = " ".join(st[1:])
+    for v in split_top(m0.group(1)):
+        if not re.fullmatch(IDENT, v) or re.search(r"\b%s\b" % v, later):
+            raise Unrecognised("Header::decode: leading bytes are used")
+    m1 = re.fullmatch(r"let\((%s),(%s)\)=take_array::<(\d+)>\(%s\)\?" % (IDENT, IDENT, m0.group(2)), squeeze(st[1]))
+    if not m1:
+        raise Unrecognised("Header::decode: key")
+    dec_types, ctor = parse_decode(None, "Header", fields, src_root, HEADER_RS, st=st[2:], buf=m1.group(2),
+                                   pre=[(m1.group(1), "[u8;%s]" % m1.group(3))])
+    return (dict(size=size, enc=enc, dec_types=dec_types, ctor=ctor),
+            dict(bytes=lead_bytes, dec_skip=int(m0.group(3)), size=sum(lead), size_terms=len(lead)))
+
+
+def extract_oplog(src_root=REPO_SRC):
+    """-> [(coq name, kind, source file, value or None, reason)]"""
+    res = []
+
+    def attempt(names, f, fn):
+        try:
+            vals, why = fn(), None
+        except Unrecognised as e:
+            vals, why = None, str(e)
+        except (IndexError, KeyError) as e:
+            vals, why = None, "unexpected shape"
+        for i, (name, kind) in enumerate(names):
+            res.append((name, kind, f, (vals[i] if vals is not None else None), why))
+
+    for (ty, impl_file, sf) in OPLOG_TYPES:
+        attempt([("src_" + ty, "codec")], impl_file, lambda: (extract_one(src_root, ty, sf, impl_file),))
+    attempt([("src_Entry", "flagged")], ENTRY_RS, lambda: (extract_entry(src_root),))
+    attempt([("src_BitfieldUpdate", "codec"), ("src_BitfieldUpdate_flag", "flagbyte")], ENTRY_RS,
+            lambda: extract_bitfield_update(src_root))
+    attempt([("src_Header", "codec"), ("src_Header_lead", "lead")], HEADER_RS, lambda: extract_header(src_root))
+    return res
 
 
 def extract(src_root=REPO_SRC):
@@ -362,44 +682,87 @@ def coq_string(s):
 
 
 def coq_fty(t):
-    return t if isinstance(t, str) else "FOther %s" % coq_string(t[1])
+    return t if isinstance(t, str) else "%s %s" % (t[0], coq_string(t[1]))
 
 
 def coq_fields(l):
     return "[%s]" % "; ".join("(%s, %s)" % (coq_string(n), coq_fty(t)) for (n, t) in l)
 
 
-def coq_text(descs):
+def coq_sections(l):
+    return "[%s]" % "; ".join("(%s, %d%%N, %s)" % (coq_string(n), b, coq_fty(t)) for (n, b, t) in l)
+
+
+def coq_bits(l):
+    return "[%s]" % "; ".join("(%s, %d%%N)" % (coq_string(n), b) for (n, b) in l)
+
+
+def why_text(why):
+    return re.sub(r"[^A-Za-z0-9_ .,:;!<>=+-]", "", why or "")[:120]
+
+
+def coq_codec(name, f, d, why):
+    if d is None:
+        return ["Definition %s : option codec_desc := None.   (* %s: %s *)" % (name, f, why_text(why))]
+    return ["Definition %s : option codec_desc := Some {|   (* %s *)" % (name, f),
+            "  cd_size := %s;" % coq_fields(d["size"]),
+            "  cd_enc := %s;" % coq_fields(d["enc"]),
+            "  cd_dec_types := [%s];" % "; ".join(coq_fty(t) for t in d["dec_types"]),
+            "  cd_ctor := [%s] |}." % "; ".join(coq_string(n) for n in d["ctor"])]
+
+
+COQ_KIND = {"flagged": "flagged_desc", "flagbyte": "flagbyte_desc", "lead": "lead_desc"}
+
+
+def coq_oplog(name, kind, f, d, why):
+    if kind == "codec":
+        return coq_codec(name, f, d, why)
+    if d is None:
+        return ["Definition %s : option %s := None.   (* %s: %s *)" % (name, COQ_KIND[kind], f, why_text(why))]
+    head = "Definition %s : option %s := Some {|   (* %s *)" % (name, COQ_KIND[kind], f)
+    if kind == "flagged":
+        return [head, "  fd_size_lead := %d%%N;" % d["size_lead"], "  fd_size := %s;" % coq_fields(d["size"]),
+                "  fd_enc := %s;" % coq_sections(d["enc"]), "  fd_dec := %s |}." % coq_sections(d["dec"])]
+    if kind == "flagbyte":
+        return [head, "  fb_size := %d%%N;" % d["size"], "  fb_enc := %s;" % coq_bits(d["enc"]),
+                "  fb_dec := %s |}." % coq_bits(d["dec"])]
+    return [head, "  hl_bytes := [%s];" % "; ".join("%d%%N" % b for b in d["bytes"]),
+            "  hl_dec_skip := %d%%N;" % d["dec_skip"], "  hl_size := %d%%N |}." % d["size"]]
+
+
+def coq_text(descs, oplog=()):
     lines = ["(* generated on every run by tools/srccodec.py from /repo/src/encoding.rs (+ common/peer.rs, common/node.rs): the wire",
              "   codecs as the source states them now (None = the impl is no longer in the macro form the translator recognises).",
              "   CodecTie.v ties them to the encoders of Codec.v. *)",
              "From HC Require Import CodecDesc.", "Local Open Scope string_scope.", ""]
     for (ty, f, d, why) in descs:
-        if d is None:
-            lines.append("Definition src_%s : option codec_desc := None.   (* %s: %s *)"
-                         % (ty, f, re.sub(r"[^A-Za-z0-9_ .,:;!<>=+-]", "", why or "")[:120]))
-        else:
-            lines.append("Definition src_%s : option codec_desc := Some {|   (* %s *)" % (ty, f))
-            lines.append("  cd_size := %s;" % coq_fields(d["size"]))
-            lines.append("  cd_enc := %s;" % coq_fields(d["enc"]))
-            lines.append("  cd_dec_types := [%s];" % "; ".join(coq_fty(t) for t in d["dec_types"]))
-            lines.append("  cd_ctor := [%s] |}." % "; ".join(coq_string(n) for n in d["ctor"]))
+        lines += coq_codec("src_" + ty, f, d, why)
+    lines += ["", "(* the oplog codecs of /repo/src/oplog/entry.rs and /repo/src/oplog/header.rs (property C06); OplogTie.v ties them to",
+              "   Oplog.v. Entry: for encoded_size / encode / decode separately, the sections in source order, each with the flag",
+              "   bit that announces it (encode: `flags |= N`; decode: `flags & N != 0`). *)"]
+    for (name, kind, f, d, why) in oplog:
+        lines += coq_oplog(name, kind, f, d, why)
     return "\n".join(lines) + "\n"
 
 
 def regenerate(coq_dir, src_root=REPO_SRC):
     """writes SrcCodec.v (only when its content changes, to keep make incremental); returns the list for evidence"""
     descs = extract(src_root)
-    txt = coq_text(descs)
+    oplog = extract_oplog(src_root)
+    txt = coq_text(descs, oplog)
     p = os.path.join(coq_dir, "SrcCodec.v")
     old = open(p).read() if os.path.exists(p) else None
     if old != txt:
         with open(p, "w") as fh:
             fh.write(txt)
-    return [dict(type=ty, file=f, found=(d is not None),
-                 fields=([n for (n, _) in d["enc"]] if d is not None else None)) for (ty, f, d, why) in descs]
+    return [dict(type=ty, file=f, found=(d is not None), group="wire",
+                 fields=([n for (n, _) in d["enc"]] if d is not None else None)) for (ty, f, d, why) in descs] + \
+           [dict(type=name[4:], file=f, found=(d is not None), group="oplog", kind=kind,
+                 fields=([x[0] for x in d["enc"]] if d is not None and "enc" in d else None))
+            for (name, kind, f, d, why) in oplog]
 
 
 if __name__ == "__main__":
     import sys
-    print(coq_text(extract(sys.argv[1] if len(sys.argv) > 1 else REPO_SRC)), end="")
+    root = sys.argv[1] if len(sys.argv) > 1 else REPO_SRC
+    print(coq_text(extract(root), extract_oplog(root)), end="")
